@@ -442,6 +442,247 @@ class Gen:
         return snippets, kinds
 
 
+class Directed:
+    """Directed family of GC-schedule-sensitive programs.  Their correct output does not depend on when collections
+    happen; each parks a FRESH heap object in one of the places where the VM keeps a value outside the value stack (or
+    only in a register / a suspended frame) while yarel code or an allocating native runs, then allocates, then prints
+    the object.  A collect-at-every-allocation build (dev, debug_stress_gc) reclaims the object if the edge that should
+    keep it alive is not traced; the paced build does not collect in that window: the builds print different things."""
+
+    PRELUDE = ["class Box { #[constructor] fn new(self, v) { self.v = v; } fn show(self) { return \"Box(${self.v})\"; } }",
+               "fn mkvec(k) { return [k, [k + 1], \"s${k}\"]; }",
+               "fn mkc(k) { var x = [k, k]; return || x; }"]
+
+    def __init__(self, rng):
+        self.rng = rng
+        self.n = 0
+
+    def uid(self):
+        self.n += 1
+        return self.n
+
+    def fresh(self, kind=None):
+        """(expression creating a fresh heap object, statement printing variable %s)"""
+        r = self.rng
+        k = r.randint(1, 99)
+        kind = kind or r.choice(["vec", "nested", "tuple", "map", "inst", "clo", "str", "call"])
+        return {
+            "vec": ("[1, 2, %d]" % k, "print(%s);"),
+            "nested": ("[%d, [%d, (%d, \"t\")]]" % (k, k + 1, k + 2), "print(%s);"),
+            "tuple": ("(%d, [%d])" % (k, k), "print(%s);"),
+            "map": ("{\"k\": [%d], %d: \"v\"}" % (k, k), "print(%s);"),
+            "inst": ("Box.new([%d])" % k, "print(%s.show());"),
+            "clo": ("mkc(%d)" % k, "print(%s());"),
+            "str": ("\"s\" + \"${%d}\" + \"e\"" % k, "print(%s);"),
+            "call": ("mkvec(%d)" % k, "print(%s);"),
+        }[kind]
+
+    def alloc(self):
+        r = self.rng
+        u = self.uid()
+        return r.choice([
+            "var scratch%d = [7, 8, 9]; print(\"cleanup ${scratch%d}\");" % (u, u),
+            "var junk%d = []; for i in 0..4 { junk%d.push([i, (i, \"j${i}\")]); } print(junk%d.len());" % (u, u, u),
+            "var tmp%d = Box.new([9, 9]); print(tmp%d.show());" % (u, u),
+            "var mm%d = {\"z\": [0], 1: (2, 3)}; print(mm%d.keys().len());" % (u, u),
+            "var st%d = \"a\" + \"${%d}\" + \"b\"; print(st%d.split(\"a\"));" % (u, u, u),
+        ])
+
+    # --- pending return value while the finally block runs
+    def ret_finally(self):
+        r = self.rng
+        e, show = self.fresh()
+        e2, show2 = self.fresh()
+        a, a2, a3 = self.alloc(), self.alloc(), self.alloc()
+        v = r.choice(["plain", "catch", "nested", "method", "fiber", "yield", "loop", "lambda", "deep"])
+        if v == "plain":
+            body = ["fn build() { try { return %s; } finally { %s } }" % (e, a), "var v = build();"]
+        elif v == "catch":
+            body = ["fn build() { try { throw \"x\"; } catch err { return %s; } finally { %s } }" % (e, a), "var v = build();"]
+        elif v == "nested":
+            body = ["fn build() { try { try { return %s; } finally { %s } } finally { %s } }" % (e, a, a3), "var v = build();"]
+        elif v == "method":
+            body = ["#[constructor(new)]", "class Maker { fn build(self, k) { try { return [k, %s]; } finally { %s } } }" % (e, a),
+                    "var v = Maker.new().build(5)[1];"]
+        elif v == "fiber":
+            body = ["var fb = Fiber.new(|| { try { return %s; } finally { %s } });" % (e, a), "var v = fb.call();"]
+        elif v == "yield":
+            body = ["var fb = Fiber.new(|| { try { Fiber.yield(0); return %s; } finally { %s } });" % (e, a),
+                    "print(fb.call());", a3, "var v = fb.call();"]
+        elif v == "loop":
+            body = ["fn build() { for i in [10, 20, 30] { try { if i == 20 { return %s; } } finally { %s } } return nil; }" % (e, a),
+                    "var v = build();"]
+        elif v == "lambda":
+            body = ["var build = |k| { try { return [k, %s]; } finally { %s } };" % (e, a), "var v = build(1)[1];"]
+        else:
+            body = ["fn inner() { try { return %s; } finally { %s } }" % (e, a),
+                    "fn build() { try { return [inner(), %s]; } finally { %s } }" % (e2, a3),
+                    "var pair = build(); var v = pair[0]; var w = pair[1];", show2 % "w"]
+        return body + [a2, show % "v"]
+
+    # --- receiver while a bound method is created / kept
+    def bound_receiver(self):
+        r = self.rng
+        a, a2 = self.alloc(), self.alloc()
+        k = r.randint(1, 50)
+        v = r.choice(["inst", "veclen", "veciter", "mk", "strm", "mapkeys"])
+        if v == "inst":
+            return ["var m = Box.new([%d]).show;" % k, a, "print(m());", a2, "print(m());"]
+        if v == "veclen":
+            return ["var m = [1, 2, %d, [4]].len;" % k, a, "print(m());"]
+        if v == "veciter":
+            return ["var m = [[%d], [%d]].iter;" % (k, k + 1), a, "var it = m();", a2, "print(it.next()); print(it.next());"]
+        if v == "mk":
+            return ["fn mk() { return Box.new(mkvec(%d)); }" % k, "var ms = [mk().show, mk().show];", a,
+                    "for m in ms { print(m()); }"]
+        if v == "strm":
+            return ["var m = (\"ab\" + \"${%d}\").len;" % k, a, "print(m());", "var sp = (\"x-y\" + \"-${%d}\").split;" % k, a2,
+                    "print(sp(\"-\"));"]
+        return ["var m = {\"a\": [%d], \"b\": (1, 2)}.items;" % k, a, "print(m());"]
+
+    # --- arguments / receivers while an allocating native runs
+    def native_args(self):
+        r = self.rng
+        k = r.randint(1, 50)
+        e, _ = self.fresh(r.choice(["vec", "nested", "tuple", "map", "call"]))
+        e2, _ = self.fresh(r.choice(["vec", "nested", "tuple", "str"]))
+        return r.choice([
+            ["print((\"a,b\" + \",${%d}\" + \",c\").split(\",\"));" % k],
+            ["print({\"a\": %s, \"b\": %s}.keys());" % (e, e2), "print({\"a\": %s, \"b\": %s}.values());" % (e, e2)],
+            ["print({\"a\": %s, %d: %s}.items());" % (e, k, e2)],
+            ["print((\"x\" + \"${%d}\") + (\"y\" + \"${%d}\") + (\"z\" + \"${%s}\"));" % (k, k + 1, e)],
+            ["print(\"${%s} and ${%s} and ${mkvec(%d)} and ${Box.new([%d]).show()}\");" % (e, e2, k, k)],
+            ["print([%d, %d, %d].iter().map(|x| [x, \"m${x}\"]).filter(|p| p[0] > 0).collect());" % (k, k + 1, k + 2)],
+            ["print(%s.iter().map(|x| (x, [x])).collect());" % "[[%d], (%d,), \"q\"]" % (k, k)],
+            ["print((0..%d).iter().map(|i| Box.new([i])).map(|b| b.show()).collect());" % r.randint(2, 6)],
+            ["print((0..%d).iter().map(|i| [i]).reduce(|acc, x| acc + \"${x}\", \"r\" + \"${%d}\"));" % (r.randint(2, 6), k)],
+            ["print((\"aXbX\" + \"${%d}\").replace(\"X\", \"-\" + \"${%d}\"));" % (k, k + 1)],
+            ["var vv = []; vv.push(%s); vv.push(%s); vv.push(mkvec(%d)); print(vv);" % (e, e2, k)],
+            ["var hm = {}; hm.insert(\"k\" + \"${%d}\", %s); hm.insert(\"j\" + \"${%d}\", %s); print(hm.len()); print(hm.get(\"k\" + \"${%d}\"));" % (k, e, k, e2, k)],
+            ["print([%s, %s] == [%s, %s]);" % (e, e2, e, e2), "print([mkvec(%d), mkvec(%d)]);" % (k, k + 1)],
+            ["print(String.from(%s) + String.from(%s));" % (e, e2)],
+        ])
+
+    # --- the class under construction while its methods are created
+    def class_building(self):
+        r = self.rng
+        k = r.randint(1, 50)
+        nm = r.randint(3, 9)
+        a = self.alloc()
+        ms = " ".join("fn m%d(self) { return [k, %d, self.tag]; }" % (i, i) for i in range(nm))
+        return ["fn mkclass(k) {",
+                "  class Parent { fn a(self) { return (k, [k]); } }",
+                "  #[derive(Parent)]",
+                "  class Local { #[constructor] fn new(self, t) { self.tag = [t]; } %s #[static] fn s() { return [k, \"static\"]; } }" % ms,
+                "  return Local;", "}",
+                "var C = mkclass(%d);" % k, a, "var o = C.new(\"o\" + \"${%d}\");" % k, self.alloc(),
+                "print(o.m%d()); print(o.m0()); print(o.a()); print(C.s());" % (nm - 1)]
+
+    # --- the iterator (and the iterated fresh object) while the loop body allocates
+    def iterating(self):
+        r = self.rng
+        k = r.randint(1, 50)
+        a = self.alloc()
+        e, show = self.fresh()
+        e2, show2 = self.fresh()
+        return r.choice([
+            ["for x in [%s, mkvec(%d), [%d]] { %s print(x); }" % ("[%d, (1, 2)]" % k, k, k, a)],
+            ["for c in (\"ab\" + \"c${%d}\") { %s print(c); }" % (k, a)],
+            ["for kv in {\"a\": [%d], \"b\": mkvec(%d)}.items() { %s print(kv); }" % (k, k, a)],
+            ["for x in (0..3).iter().map(|i| [i, \"i${i}\"]) { %s print(x); }" % a],
+            ["#[constructor(new)]", "class Cnt { fn iter(self) { self.i = 0; self.seen = []; return self; } "
+             "fn next(self) { if self.i == 3 { return StopIter.new(); } self.i += 1; self.seen.push([self.i]); return self.seen; } }",
+             "for s in Cnt.new() { %s print(s); }" % a],
+            ["for x in mkvec(%d) { for y in [[x], (x,)] { %s print(y); } }" % (k, a)],
+            ["for x in [%s, %s] { %s }" % (e, e, a), "var keepv = %s; for i in 0..2 { %s } %s" % (e2, self.alloc(), show2 % "keepv")],
+        ])
+
+    # --- values held only by a suspended or a calling fiber
+    def fiber_held(self):
+        r = self.rng
+        e, show = self.fresh()
+        e2, show2 = self.fresh()
+        a, a2, a3 = self.alloc(), self.alloc(), self.alloc()
+        v = r.choice(["suspended", "calling", "yielded", "arg", "inner", "temp", "chain"])
+        if v == "suspended":
+            return ["var f = Fiber.new(|| { var mine = %s; Fiber.yield(1); %s return mine; });" % (e, a), "print(f.call());", a2,
+                    "var v = f.call();", a3, show % "v"]
+        if v == "calling":
+            return ["fn outer() { var mine = %s; var f = Fiber.new(|| { %s Fiber.yield(2); %s }); f.call(); f.call(); return mine; }" % (e, a, a2),
+                    "var v = outer();", a3, show % "v"]
+        if v == "yielded":
+            return ["var g = Fiber.new(|| { for i in 0..3 { Fiber.yield([i, (i, \"y${i}\")]); } return %s; });" % e,
+                    "var y0 = g.call();", a, "var y1 = g.call();", a2, "print(y0); print(y1); print(g.call());", "var v = g.call();", a3, show % "v"]
+        if v == "arg":
+            return ["var f = Fiber.new(|x| { %s var y = Fiber.yield(x); %s return [x, y]; });" % (a, a2),
+                    "var first = f.call(%s);" % e, a3, "var both = f.call(%s);" % e2, self.alloc(),
+                    show % "first", show % "both[0]", show2 % "both[1]"]
+        if v == "inner":
+            return ["var outerf = Fiber.new(|| { var inner = Fiber.new(|| { var z = %s; Fiber.yield(z); %s return z; }); "
+                    "var got = inner.call(); Fiber.yield(got); %s return inner.call(); });" % (e, a, a2),
+                    "var v1 = outerf.call();", a3, "var v2 = outerf.call();", self.alloc(), show % "v1", show % "v2"]
+        if v == "temp":
+            return ["var v = Fiber.new(|| %s).call();" % e, a, show % "v",
+                    "var w = Fiber.new(|p| { %s return [p]; }).call(%s);" % (a2, e2), a3, show2 % "w[0]"]
+        return ["var fs = [];",
+                "for i in 0..3 { var me = i; fs.push(Fiber.new(|x| { var mine = [me, x]; if me < 2 { var r = fs[me + 1].call(mine); %s return [mine, r]; } %s return mine; })); }" % (a, a2),
+                "var v = fs[0].call(%s);" % e, a3, "print(v.len()); print(v[1].len());"]
+
+    # --- other parking places: closed upvalues, exception in flight, compound assignment, map literal, constructor
+    def misc(self):
+        r = self.rng
+        k = r.randint(1, 50)
+        e, show = self.fresh()
+        e2, show2 = self.fresh()
+        a, a2 = self.alloc(), self.alloc()
+        return r.choice([
+            ["fn mk() { var x = %s; return || x; }" % e, "var c = mk();", a, "var v = c();", a2, show % "v"],
+            ["try { try { throw %s; } finally { %s } } catch err { %s %s }" % (e, a, a2, show % "err")],
+            ["fn thrower() { throw %s; }" % e, "fn mid() { try { thrower(); } finally { %s } }" % a,
+             "try { mid(); } catch err { %s %s }" % (a2, show % "err")],
+            ["var o = Box.new(\"p\" + \"${%d}\"); o.v += \"q\" + \"${%d}\"; %s o.v += \"r\"; print(o.show());" % (k, k, a)],
+            ["var d = {(\"k\" + \"${%d}\"): %s, (\"j\" + \"${%d}\"): %s};" % (k, e, k, e2), a, "print(d);"],
+            ["var b = Box.new(Box.new(%s));" % e, a, "var v = b.v.v;", a2, show % "v"],
+            ["var vv = [0, 0]; vv[[0, 1].len() - 1] = %s; vv[0] = %s;" % (e, e2), a, show % "vv[1]", show2 % "vv[0]"],
+            ["fn pass(x, y, z) { %s return [z, y, x]; }" % a, "var v = pass(%s, mkvec(%d), %s);" % (e, k, e2), a2,
+             show2 % "v[0]", show % "v[2]", "print(v[1]);"],
+            ["var t = (%s, %s, mkvec(%d));" % (e, e2, k), a, show % "t[0]", show2 % "t[1]", "print(t[2]);"],
+            ["var r0 = %d..%d; %s print(r0); for i in r0 { print([i]); }" % (k, k + 3, a)],
+        ])
+
+    # --- the module while its body runs (through the harness' module loader)
+    def module(self):
+        e, show = self.fresh()
+        e2, show2 = self.fresh()
+        mod = self.PRELUDE + ["var data = %s;" % e, self.alloc(), "fn get() { return data; }", self.alloc(),
+                              "var later = %s;" % e2, "fn fresh_one() { return %s; }" % e, self.alloc(), "print(\"module body done\");"]
+        main = self.PRELUDE + ["import \"gcmod\" as m;", self.alloc(), show % "m.data", show % "m.get()", show2 % "m.later",
+                               "var f1 = m.fresh_one();", self.alloc(), show % "f1"]
+        return main, "\n".join(mod) + "\n"
+
+    FAMILIES = [("ret_finally", 16), ("bound_receiver", 7), ("native_args", 12), ("class_building", 4), ("iterating", 7),
+                ("fiber_held", 10), ("misc", 8), ("module", 3)]
+
+    def programs(self):
+        """about 65 programs: [{name, line, src, snippets, kinds}]"""
+        out = []
+        for fam, count in self.FAMILIES:
+            for i in range(count):
+                if fam == "module":
+                    main, mod = self.module()
+                    src = "\n".join(main) + "\n"
+                    line = "mods stats=1 %s %s=%s" % (hx(src), hx("gcmod"), hx(mod))
+                    out.append({"name": "dir:%s:%d" % (fam, i), "line": line, "src": src + "// module gcmod:\n" + mod, "kinds": [fam]})
+                    continue
+                body = getattr(self, fam)()
+                wrap = self.rng.random()
+                if wrap < 0.35 and fam not in ("class_building",) and not any(l.startswith(("fn ", "class ", "#[")) for l in body):
+                    body = ["fn scoped() {"] + ["  " + l for l in body] + ["}", "scoped();"]
+                src = "\n".join(self.PRELUDE + body) + "\n"
+                out.append({"name": "dir:%s:%d" % (fam, i), "line": "run stats=1 " + hx(src), "src": src, "kinds": [fam]})
+        return out
+
+
 def join(snippets):
     return "\n".join("\n".join(s) for s in snippets) + "\n"
 
@@ -595,6 +836,10 @@ def differential(ctx, cfgs, n_generated, label):
         for k in kinds:
             kind_hist[k] = kind_hist.get(k, 0) + 1
         progs.append({"name": "gen:%d" % i, "line": "run stats=1 " + hx(src), "src": src, "snippets": snippets, "kinds": kinds})
+    directed = Directed(ctx.rng).programs()
+    progs += directed
+    for p in directed:
+        kind_hist["dir:" + p["kinds"][0]] = kind_hist.get("dir:" + p["kinds"][0], 0) + 1
     lines = [p["line"] for p in progs]
     t0 = time.time()
     results = run_everywhere(bins, lines)
@@ -672,6 +917,7 @@ def differential(ctx, cfgs, n_generated, label):
     c["programs"] = c.get("programs", 0) + len(progs)
     c["programs_repo"] = len(repo)
     c["programs_generated"] = c.get("programs_generated", 0) + n_generated
+    c["programs_directed_gc_edges"] = c.get("programs_directed_gc_edges", 0) + len(directed)
     c["repo_scripts_skipped"] = skipped
     c["evaluations"] = c.get("evaluations", 0) + len(progs) * len(cfgs)
     c["programs_all_builds_agree"] = c.get("programs_all_builds_agree", 0) + agree
